@@ -12,6 +12,12 @@ sandbox do for one key).  Amounts are `Int` (`big.Int`).  Accounts are abstract 
 property of an account NAME the code depends on is whether `lock_<pid>_<name>` falls into the scan range
 of `unlockGovernTokensForProposal` (first byte below 0x60) — `lockScanCovers`.
 
+The TDPoS election contract (`bcs/consensus/tdpos/kernel_contract.go`: runNominateCandidate,
+runRevokeCandidate, runVote, runRevokeVote) is modelled with the peculiarity that matters for the tokens: it
+READS its records (`nominate`, `vote_<candidate>`) from the ledger snapshot of the block height the caller
+names (`getSnapshotKey(height, …)`) and WRITES the whole re-encoded value through the contract context.  The
+world therefore carries the committed `$tdpos` bucket `td` and one snapshot of it per sealed block (`tdSnaps`).
+
 A rejected call is `none`: the transaction fails and none of its writes are committed.
 -/
 namespace XV.GovToken
@@ -27,6 +33,11 @@ def aget {κ ν : Type} [DecidableEq κ] : List (κ × ν) → κ → Option ν
 def aput {κ ν : Type} [DecidableEq κ] : List (κ × ν) → κ → ν → List (κ × ν)
   | [], a, b => [(a, b)]
   | (k, v) :: r, a, b => if k = a then (a, b) :: r else (k, v) :: aput r a b
+
+/-- `delete(m, a)`: drop the (first) entry of key `a` -/
+def aerase {κ ν : Type} [DecidableEq κ] : List (κ × ν) → κ → List (κ × ν)
+  | [], _ => []
+  | (k, v) :: r, a => if k = a then r else (k, v) :: aerase r a
 
 /-! ## the governToken bucket -/
 
@@ -173,6 +184,14 @@ structure Task where
   pid : Nat
   deriving DecidableEq, Repr
 
+/-- the election records of the `$tdpos` bucket (the `revoke` log carries no stake and is not modelled) -/
+structure TdBucket where
+  /-- key `tdpos_0_nominate`: candidate ↦ {nominator: deposit} (one nominator per candidate) -/
+  nom : List (Acct × (Acct × Int)) := []
+  /-- keys `tdpos_0_vote_<candidate>`: candidate ↦ {voter: ballots} -/
+  votes : List (Acct × List (Acct × Int)) := []
+  deriving DecidableEq, Repr
+
 structure World where
   /-- genesis predistribution the contract instance was built with -/
   pre : List (Acct × Int)
@@ -184,6 +203,10 @@ structure World where
   locks : List ((Nat × Acct) × Int) := []
   /-- timer tasks in task-id order -/
   tasks : List Task := []
+  /-- the committed `$tdpos` bucket -/
+  td : TdBucket := {}
+  /-- the snapshot of `td` taken by every sealed block, in order: blocks `tdBaseTip + 1`, `tdBaseTip + 2`, … -/
+  tdSnaps : List TdBucket := []
   deriving DecidableEq, Repr
 
 /-- `Propose`: args check, timer task for CheckVoteResult, Lock 1000 ordinary on the initiator, records -/
@@ -285,6 +308,99 @@ def runTask (w : World) (t : Task) : World :=
 def timerDo (w : World) (h : Int) : World :=
   (w.tasks.filter (fun t => t.height = h)).foldl runTask w
 
+/-! ## the TDPoS election contract -/
+
+/-- `StartHeight` of the consensus instance: `checkArgs` refuses heights `≤ tdStartHeight` -/
+def tdStartHeight : Int := 1
+
+/-- height of the ledger tip of a fresh world; blocks up to it carry no election record -/
+def tdBaseTip : Nat := 2
+
+def World.tip (w : World) : Nat := tdBaseTip + w.tdSnaps.length
+
+/-- a new block: its snapshot is what has been committed so far -/
+def sealBlock (w : World) : World := { w with tdSnaps := w.tdSnaps ++ [w.td] }
+
+/-- `checkArgs` + `getSnapshotKey`: the records as of block `h`; `none` = the height is refused
+(`h ≤ StartHeight` or above the tip) -/
+def tdSnapAt (w : World) (h : Int) : Option TdBucket :=
+  if h ≤ tdStartHeight ∨ h > w.tip then none
+  else if h ≤ tdBaseTip then some {}
+  else some (w.tdSnaps.getD (h - tdBaseTip - 1).toNat {})
+
+/-- `isAuthAddress`: the initiator is the candidate, or the candidate is among the co-signers (`AuthRequire`);
+`auth` = the candidate co-signs -/
+def tdAuth (i c : Acct) (auth : Bool) : Bool := i = c || auth
+
+/-- `runNominateCandidate`: amount check, authorisation, Lock of the INITIATOR's tokens (tdpos type), then the
+snapshot's nominate record: refuse a repeated candidate, add `candidate ↦ {initiator: amount}`, write it back -/
+def nominate (w : World) (i c : Acct) (n : Int) (auth : Bool) (h : Int) : Option World :=
+  match tdSnapAt w h with
+  | none => none
+  | some s =>
+    if n ≤ 0 then none
+    else if !tdAuth i c auth then none
+    else
+      match lock w.gov .tdpos i n (some .tdpos) with
+      | none => none
+      | some g =>
+        match aget s.nom c with
+        | some _ => none
+        | none => some { w with gov := g, td := { w.td with nom := aput s.nom c (i, n) } }
+
+/-- `runRevokeCandidate`: the snapshot's record of the candidate must name the initiator as nominator; UnLock of the
+INITIATOR's deposit, delete the candidate, write the record back -/
+def revokeNominate (w : World) (i c : Acct) (h : Int) : Option World :=
+  match tdSnapAt w h with
+  | none => none
+  | some s =>
+    match aget s.nom c with
+    | none => none
+    | some (nominator, ballot) =>
+      if nominator ≠ i then none
+      else
+        match unlock w.gov .tdpos i ballot (some .tdpos) with
+        | none => none
+        | some g => some { w with gov := g, td := { w.td with nom := aerase s.nom c } }
+
+/-- `runVote`: amount check, Lock of the INITIATOR's tokens, the candidate must be nominated in the snapshot, the
+snapshot's ballots of the initiator for the candidate are raised and `vote_<candidate>` is written back -/
+def tdVote (w : World) (i c : Acct) (n : Int) (h : Int) : Option World :=
+  match tdSnapAt w h with
+  | none => none
+  | some s =>
+    if n ≤ 0 then none
+    else
+      match lock w.gov .tdpos i n (some .tdpos) with
+      | none => none
+      | some g =>
+        match aget s.nom c with
+        | none => none
+        | some _ =>
+          let vm := (aget s.votes c).getD []
+          let old := (aget vm i).getD 0
+          some { w with gov := g, td := { w.td with votes := aput w.td.votes c (aput vm i (old + n)) } }
+
+/-- `runRevokeVote`: amount check, UnLock of the INITIATOR's tokens, the snapshot must hold at least that many
+ballots of the initiator for the candidate; they are lowered and `vote_<candidate>` is written back -/
+def tdRevokeVote (w : World) (i c : Acct) (n : Int) (h : Int) : Option World :=
+  match tdSnapAt w h with
+  | none => none
+  | some s =>
+    if n ≤ 0 then none
+    else
+      match unlock w.gov .tdpos i n (some .tdpos) with
+      | none => none
+      | some g =>
+        match aget s.votes c with
+        | none => none
+        | some vm =>
+          match aget vm i with
+          | none => none
+          | some v =>
+            if v < n then none
+            else some { w with gov := g, td := { w.td with votes := aput w.td.votes c (aput vm i (v - n)) } }
+
 /-! ## calls and histories -/
 
 inductive Call
@@ -299,6 +415,13 @@ inductive Call
   /-- `CheckVoteResult` / `Trigger` reached by a caller `c` -/
   | checkVote (c : Caller) (pid : Nat)
   | trigger (c : Caller) (pid : Nat)
+  /-- a new block on the ledger -/
+  | newBlock
+  /-- the `$tdpos` kernel methods: initiator `i`, candidate `c`, block height `h` named by the caller -/
+  | nominate (i c : Acct) (n : Int) (auth : Bool) (h : Int)
+  | revokeNominate (i c : Acct) (h : Int)
+  | tdVote (i c : Acct) (n : Int) (h : Int)
+  | tdRevokeVote (i c : Acct) (n : Int) (h : Int)
   deriving DecidableEq, Repr
 
 /-- one top-level call; `none` = rejected (nothing committed) -/
@@ -313,6 +436,11 @@ def step? (w : World) : Call → Option World
   | .timer h => some (timerDo w h)
   | .checkVote c pid => if c = .timer then some (checkVote w pid) else none
   | .trigger c pid => if c = .timer then some (trigger w pid) else none
+  | .newBlock => some (sealBlock w)
+  | .nominate i c n auth h => nominate w i c n auth h
+  | .revokeNominate i c h => revokeNominate w i c h
+  | .tdVote i c n h => tdVote w i c n h
+  | .tdRevokeVote i c n h => tdRevokeVote w i c n h
 
 def step (w : World) (c : Call) : World := (step? w c).getD w
 
@@ -327,5 +455,40 @@ def sumTot : List (Acct × Bal) → Int
 def totalOf (g : Gov) (a : Acct) : Int := ((aget g.bal a).getD Bal.zero).total
 
 def lockedOf (g : Gov) (a : Acct) (τ : LockType) : Int := ((aget g.bal a).getD Bal.zero).locked τ
+
+/-! ### open stakes: what the contracts' own books say an account has staked -/
+
+/-- a proposal still holds its stakes: voting, or passed and not yet executed by its trigger -/
+def Status.isOpen : Status → Bool
+  | .voting => true
+  | .passed => true
+  | _ => false
+
+def propOpen (props : List (Nat × Proposal)) (pid : Nat) : Bool :=
+  match aget props pid with
+  | some p => p.status.isOpen
+  | none => false
+
+/-- sum of the `lock_<pid>_<a>` records of account `a` over the proposals that are still open -/
+def stakeOrd (props : List (Nat × Proposal)) : List ((Nat × Acct) × Int) → Acct → Int
+  | [], _ => 0
+  | ((p, x), amt) :: r, a => (if x = a ∧ propOpen props p = true then amt else 0) + stakeOrd props r a
+
+/-- deposits of the nominations made by `a` -/
+def nomStake : List (Acct × (Acct × Int)) → Acct → Int
+  | [], _ => 0
+  | (_, (i, n)) :: r, a => (if i = a then n else 0) + nomStake r a
+
+def mapStake : List (Acct × Int) → Acct → Int
+  | [], _ => 0
+  | (v, n) :: r, a => (if v = a then n else 0) + mapStake r a
+
+/-- ballots `a` has cast, over all candidates -/
+def voteStake : List (Acct × List (Acct × Int)) → Acct → Int
+  | [], _ => 0
+  | (_, vm) :: r, a => mapStake vm a + voteStake r a
+
+/-- what `a` has staked in the TDPoS election: its nomination deposits and its ballots -/
+def stakeTd (td : TdBucket) (a : Acct) : Int := nomStake td.nom a + voteStake td.votes a
 
 end XV.GovToken
